@@ -41,6 +41,9 @@ suite `backend` (C19): one schema, one list of records, every entry point of the
               without `FixedSizeBinary(0)`, `Spec.WF` of its field.  This clause is ALL the suite decides for C03: arrow-rs
               `validate_full` and `data_type()` of the arrow / arrow2 outputs are read by the build suite
               (`Driver.Suites.Build.backendC03`), not here.
+    C10 / C03 are `pass` only for a case in which one of these clauses was judged: C10 = `na` (tag `c10-na`) without a `top`
+    form the clause applies to and without a build after a failed push; C03 = `na` (tag `c03-na`) without a build of
+    `fail_hist` that returned arrays.
   agree (correspondence of `SaModel/Backend/Adapters.lean`, `SaModel/Backend/History.lean` with the code):
     the adapter model instantiated with the builder model as core and "conversion = identity on the wire form,
     failing on gap types" predicts class, decoded content and batch schema of `to_arrow`, `to_arrow2`,
@@ -501,10 +504,14 @@ def handle (j : Json) : Except String Verdict := do
   --        records is refused;
   --   agree: `Build.serializeWith` (the strict `Serializer` of serializer.rs) and `Build.extend` (`OuterSequenceBuilder`
   --        as a serializer) predict class, arrays and error position per form.
+  -- C10 and C03 are `pass` only where one of their clauses was judged (`c10Judged` / `c03Judged`): a case without a
+  -- `top` part and without a `fail_hist` part (or with nothing in them the clauses apply to) gives `na`
   let mut c10 := "pass"
+  let mut c10Judged := false
   let mut c10Sig := ""
   let mut c10Why := ""
   let mut c03 := "pass"
+  let mut c03Judged := false
   let mut c03Sig := ""
   let mut c03Why := ""
   let mut c16Sig := ""
@@ -548,6 +555,7 @@ def handle (j : Json) : Except String Verdict := do
       if cls == "panic" then pure ()             -- C16
       else if cls == "field_err" || (dst != "marrow" && !gaps.isEmpty) then pure ()
       else if accepted then
+        c10Judged := true
         let plain := get ser (if n == "ser" || n == "ser_owned" || n == "extend" then "marrow" else n)
         let pcls := pathCls plain
         if cls != pcls then
@@ -565,10 +573,12 @@ def handle (j : Json) : Except String Verdict := do
       else if topIsCollection (n == "extend") v then
         tags := "top-record-is-collection-shaped" :: tags
       else if cls != "err" && cls != "view_err" then
+        c10Judged := true
         if c10Sig == "" then
           c10 := "fail"
           c10Sig := s!"C10/top/{form}/{n}={cls}/not-a-collection-accepted"
           c10Why := s!"top-level {form} (not a collection of records for this front end) through {n}: {cls}"
+      else c10Judged := true     -- a value that is no collection of records was refused, as it must be
     -- the model
     match newRoot fields with
     | .error _ => pure ()
@@ -647,7 +657,11 @@ def handle (j : Json) : Except String Verdict := do
           let cls := pathCls o
           let isFinish := match hops[k]? with | some (.finish _) => true | _ => false
           if isFinish then
+            -- (C10's clause "no build succeeds on a builder in which a push failed" is judged on every build that follows a
+            -- failed push, whatever its outcome; C03's on every build that returns arrays)
+            if dirty then c10Judged := true
             if cls == "ok" then
+              c03Judged := true
               let arrs ← arraysOf o
               if dirty && c10Sig == "" then
                 c10 := "fail"
@@ -729,6 +743,10 @@ def handle (j : Json) : Except String Verdict := do
   tags := s!"arrays:{if checkedArrays == 0 then "0" else "+"}" :: tags
   let c16 := if c16Sig != "" then "fail" else c16
   let c19 := if specSig != "" then "fail" else "pass"
+  if !(c10 == "fail" || c10Judged) then c10 := "na"
+  if !(c03 == "fail" || c03Judged) then c03 := "na"
+  if c10 == "na" then tags := "c10-na" :: tags
+  if c03 == "na" then tags := "c03-na" :: tags
   let sig := if c16Sig != "" then c16Sig else if specSig != "" then specSig else if c10Sig != "" then c10Sig else if c03Sig != "" then c03Sig else agreeSig
   let why := if c16Sig != "" then c16Why else if specSig != "" then specWhy else if c10Sig != "" then c10Why else if c03Sig != "" then c03Why else agreeWhy
   return { agree := agreeSig == "", spec := [("C19", c19), ("C16", c16), ("C10", c10), ("C03", c03)],
